@@ -380,7 +380,7 @@ def _tuple_elts(node):
 
 @rule(
     "R11d",
-    ["C11"],
+    ["C11", "C06", "C01", "C18"],
     """PARTITION-FILTER CONTRACT: every PartitionsFiltered subclass declares `_partitions` with default None and
     provides a _filtered_task of its own or a _layer that consults self._partitions; its lengths short-cut
     (_get_lengths) restricts itself to the selected partitions.""",
